@@ -108,6 +108,16 @@ type Exec struct {
 	nAssertSat int
 	nUnknown   int
 	natives    map[string]interface{}
+	curModel     map[string]uint64
+	modelValid   bool
+	evalMemo     map[*Term]*Term
+	symbols      []*Term
+	symSeen      map[*Term]bool
+	nEvalSaved   int
+	pcHard       bool
+	active       *Solver
+	intSolver    *Solver
+	intPushed    bool
 	fallbacks    map[string]*Solver
 	fallbackUsed map[string]int
 	pathNatives []string
@@ -146,6 +156,7 @@ func newExec(prog *ssa.Program, pkg *ssa.Package, cfg *Config) *Exec {
 		pt = cfg.PrimaryTimeout
 	}
 	ex.solver = newSolver(cfg.Solver, pt)
+	ex.active = ex.solver
 	if cfg.CrossSolver != "" {
 		ex.solver2 = newSolver(cfg.CrossSolver, cfg.Timeout)
 	}
@@ -160,6 +171,9 @@ func (ex *Exec) close() {
 	for _, fb := range ex.fallbacks {
 		fb.close()
 	}
+	if ex.intSolver != nil {
+		ex.intSolver.close()
+	}
 }
 
 func (ex *Exec) assertPC(t *Term) {
@@ -167,11 +181,43 @@ func (ex *Exec) assertPC(t *Term) {
 		return
 	}
 	ex.pc = append(ex.pc, t)
-	ex.solver.assert(t)
+	ex.collectSyms(t)
+	if t.hard {
+		ex.pcHard = true
+	}
+	ex.active.assert(t)
+}
+
+// switchToInt makes the integer-encoding back end the incremental solver of the rest of this path: the path
+// condition so far is replayed into it once.
+func (ex *Exec) switchToInt() {
+	if ex.cfg.Solver != "cvc5" || ex.active != ex.solver || os.Getenv("VERIF_NOINT") != "" {
+		return
+	}
+	if ex.intSolver == nil || ex.intSolver.dead {
+		ex.intSolver = newSolver("cvc5-int", ex.cfg.Timeout)
+	}
+	ex.intSolver.push()
+	ex.intPushed = true
+	for _, p := range ex.pc {
+		ex.intSolver.assert(p)
+	}
+	ex.active = ex.intSolver
+}
+
+// hardPath reports whether the query involves arithmetic that the bit-blasting back end handles badly; such
+// queries go to the integer-encoding back end first.
+func (ex *Exec) hardPath(goal *Term) bool {
+	if goal != nil && goal.hard {
+		return true
+	}
+	return ex.pcHard
 }
 
 func (ex *Exec) feasible(t *Term) bool {
-	r := ex.solver.checkWith(t)
+	ex.prepHard(t)
+	ex.collectSyms(t)
+	r := ex.active.checkWith(t)
 	if r == "unknown" {
 		r, _ = ex.fallbackQuery(t, nil)
 	}
@@ -188,8 +234,12 @@ func (ex *Exec) feasible(t *Term) bool {
 // to the other back ends in turn (cvc5 with the integer encoding of bit-vectors, then z3). Returns the verdict and,
 // for sat, the values of want.
 func (ex *Exec) fallbackQuery(goal *Term, want []*Term) (string, []uint64) {
-	for _, kind := range []string{"cvc5-int", "z3-new"} {
-		if kind == ex.cfg.Solver {
+	if ex.active == ex.solver && (ex.pcHard || (goal != nil && goal.hard)) {
+		// the bit-blaster stalled on arithmetic: the integer encoding takes over for the rest of this path
+		defer ex.switchToInt()
+	}
+	for _, kind := range []string{"cvc5-int", "cvc5", "z3-new"} {
+		if kind == ex.active.kind {
 			continue
 		}
 		fb := ex.fallbacks[kind]
@@ -244,9 +294,36 @@ func (ex *Exec) decide(c *Term) bool {
 	var d bool
 	if i < len(ex.prefix) {
 		d = ex.prefix[i] != 0
+		ex.modelValid = false
 	} else {
-		ft := ex.feasible(c)
-		ff := ex.feasible(tNot(c))
+		var ft, ff bool
+		mv, known := ex.evalUnderModel(c)
+		switch {
+		case known && mv:
+			// the current model already satisfies c: only the other side needs the solver
+			ex.nEvalSaved++
+			ft = true
+			ff = ex.feasible(tNot(c))
+		case known && !mv:
+			ex.nEvalSaved++
+			ff = true
+			r, m := ex.satWithModel(c)
+			ft = r != "unsat"
+			if ft {
+				ex.setModel(m)
+			}
+		default:
+			r, m := ex.satWithModel(c)
+			ft = r != "unsat"
+			if ft {
+				ex.setModel(m)
+				ff = ex.feasible(tNot(c))
+			} else {
+				// the path condition is satisfiable (invariant), so the other side is
+				ff = true
+				ex.modelValid = false
+			}
+		}
 		switch {
 		case ft && ff:
 			alt := make([]int, len(ex.taken)+1)
@@ -303,9 +380,17 @@ func (ex *Exec) assume(c *Term) {
 	}
 	// inside a replayed prefix the assumption is known to be satisfiable
 	if len(ex.taken) >= len(ex.prefix) {
-		if !ex.feasible(c) {
-			panic(assumeFailed{})
+		if mv, known := ex.evalUnderModel(c); known && mv {
+			ex.nEvalSaved++
+		} else {
+			r, m := ex.satWithModel(c)
+			if r == "unsat" {
+				panic(assumeFailed{})
+			}
+			ex.setModel(m)
 		}
+	} else {
+		ex.modelValid = false
 	}
 	ex.assertPC(c)
 }
@@ -351,9 +436,9 @@ func (ex *Exec) model(extra []*Term) (map[string]string, []uint64, bool) {
 	ts = append(ts, extra...)
 	var vals []uint64
 	ok := false
-	r := ex.solver.check()
+	r := ex.active.check()
 	if r == "sat" {
-		vals, ok = ex.solver.getValues(ts)
+		vals, ok = ex.active.getValues(ts)
 	}
 	if !ok && r != "unsat" {
 		r2, v2 := ex.fallbackQuery(nil, ts)
@@ -392,6 +477,9 @@ func (ex *Exec) recordCE(kind, id, msg string, pos token.Position, fn string, in
 // runPath executes one path of entry fn following prefix, returning its result and newly discovered prefixes.
 func (ex *Exec) runPath(fn *ssa.Function, prefix []int) (res *PathResult, pending [][]int) {
 	ex.prefix, ex.taken, ex.pending, ex.pc = prefix, nil, nil, nil
+	ex.curModel, ex.modelValid, ex.evalMemo = nil, false, map[*Term]*Term{}
+	ex.symbols, ex.symSeen = nil, map[*Term]bool{}
+	ex.pcHard = false
 	ex.inputs, ex.inputByName = nil, map[string]*Input{}
 	ex.events, ex.ces, ex.known = nil, nil, nil
 	ex.pathInstr, ex.ordersUsed, ex.allMapOrders, ex.internalN = 0, false, false, 0
@@ -407,6 +495,8 @@ func (ex *Exec) runPath(fn *ssa.Function, prefix []int) (res *PathResult, pendin
 	jstart := len(ex.journal)
 	ex.journalOn = true
 	ex.solver.push()
+	ex.active = ex.solver
+	ex.intPushed = false
 	res = &PathResult{}
 	defer func() {
 		ex.journalOn = false
@@ -414,6 +504,10 @@ func (ex *Exec) runPath(fn *ssa.Function, prefix []int) (res *PathResult, pendin
 		if !ex.solver.dead {
 			ex.solver.pop()
 		}
+		if ex.intPushed && ex.intSolver != nil && !ex.intSolver.dead {
+			ex.intSolver.pop()
+		}
+		ex.active = ex.solver
 	}()
 	func() {
 		defer func() {
